@@ -138,6 +138,7 @@ func histLabels(c HistCase) []string {
 	sharedHost, sharedBack := false, false
 	hostUse := map[string]int{}
 	backUse := map[string]int{}
+	ulUse, authTargets := map[string]int{}, map[string]bool{}
 	secUse := map[string]int{}
 	for _, o := range w.OfKind(world.KIngress) {
 		hs := map[string]bool{}
@@ -157,6 +158,24 @@ func histLabels(c HistCase) []string {
 		for _, t := range o.TLS {
 			secUse[o.NS+"/"+t.Secret]++
 		}
+		if o.Ann["auth-type"] == "basic" && o.Ann["auth-secret"] != "" {
+			ulUse[o.NS+"/"+o.Ann["auth-secret"]]++
+		}
+		if u := o.Ann["auth-url"]; u != "" {
+			if strings.HasPrefix(u, "svc://") {
+				u = o.NS + "/" + u
+			}
+			authTargets[u] = true
+		}
+	}
+	for _, n := range ulUse {
+		if n > 1 {
+			out = append(out, "shared-userlist")
+			break
+		}
+	}
+	if len(authTargets) >= 3 {
+		out = append(out, "auth-url-targets>=3")
 	}
 	for _, n := range hostUse {
 		if n > 1 {
